@@ -420,6 +420,49 @@ def db_frames_leg(ck, rnd, tier):
     common.require(len(exp) >= 1 and len(exp[0]) == len(cases), 'TLC did not emit the expected compatibility frames (database entries)')
     dot = lambda v: '.'.join(str(x) for x in v)
     norm = lambda s_: None if s_ is None else dot(comps(s_))
+    # the line rendered from the ranges ('(gen) compatibility: ...'): per product 'P a+' (never removed), 'P a' (one release), 'P a-b' (a range,
+    # a numerically before b), 'P a+ (some functionality from b)' (a numerically after b) - each product by its own range
+    from ssh_audit.ssh_audit import output_compatibility
+    import re as _re
+    by_list = {}
+    for (li, prod), e in zip(index, exp[0]):
+        by_list.setdefault(li, {})[prod] = e
+    for li, per_prod in sorted(by_list.items()):
+        lst = lists[li]
+        if len(per_prod) < 2 and li % 3:
+            continue
+        ck.evaluated()
+        per = {cat: [x[1] for x in lst if x[0] == cat] for cat in ('kex', 'key', 'enc', 'mac')}
+        party = SSH2_KexParty(per['enc'], per['mac'], ['none'], [])
+        kex = SSH2_Kex(OutputBuffer(), b'\x00' * 16, per['kex'], per['key'], party, party, False, 0)
+        ob = OutputBuffer()
+        ob.use_colors = False
+        ob.batch = True
+        output_compatibility(ob, Algorithms(None, kex), False, True)
+        line = _re.sub(r'\x1b\[[0-9;]*m', '', ob.get_buffer()).strip()
+        parts = []
+        tf = Algorithms(None, kex).get_ssh_timeframe(True)
+        for prod in ('OpenSSH', 'Dropbear SSH'):
+            if prod not in per_prod:
+                continue
+            e = per_prod[prod]
+            a = tf.get_from(prod, True)             # (spelling as the database writes it; its value was compared above)
+            b_ = tf.get_till(prod, True)
+            if not e['till']:
+                parts.append('%s %s+' % (prod, a))
+            elif list(e['from']) == list(e['till']):
+                parts.append('%s %s' % (prod, a))
+            elif tuple(e['from']) > tuple(e['till']):
+                parts.append('%s %s+ (some functionality from %s)' % (prod, a, b_))
+            else:
+                parts.append('%s %s-%s' % (prod, a, b_))
+        want_line = '(gen) compatibility: ' + ', '.join(parts)
+        if line != want_line:
+            ck.violation('compatibility-line-rendering products=%d' % len(parts), 'the entries %r are rendered as %r; their ranges (numeric order, each product on its own) read %r'
+                         % ([x[1] for x in lst], line, want_line), {'entries': [[x[0], x[1], x[2]] for x in lst], 'tool': line, 'expected': want_line})
+        else:
+            ck.cov['traces_validated_against_impl'] += 1
+            ck.nontrivial(('db-line', tuple(x[1] for x in lst)))
     for (li, prod), e in zip(index, exp[0]):
         ck.evaluated()
         lst = lists[li]
